@@ -133,6 +133,8 @@ def _gen_faults(rng, cfg):
                         plan["new_items"] = rng.randint(1, 3)
                     if rng.random() < cfg.get("flush_reenter", 0.0):
                         plan["reenter"] = rng.randint(1, 3)
+                    if rng.random() < cfg.get("flush_cancels", 0.0):
+                        plan["cancel_kind"] = rng.randint(0, 3)
                     if plan:
                         f["flushes"]["%d#%d" % (k, o)] = plan
     return f
@@ -146,8 +148,10 @@ def motif_shared_override(rng):
     kinds = rng.randint(1, 2)
     sv = rng.randint(0, 1)
 
+    use_attr = rng.random() < 0.3
+
     def ov(v):
-        return ["sv", sv, v] if rng.random() < 0.7 else ["attr", v]
+        return ["attr", v] if use_attr else ["sv", sv, v]
 
     def items(m):
         return [["y", ["item", rng.randint(0, kinds - 1), rng.randint(0, 5)]] for _ in range(m)]
@@ -164,9 +168,79 @@ def motif_shared_override(rng):
         if rng.random() < 0.5:
             pair.reverse()
         body = [["y", [rng.choice(["t", "l"]), pair]]] + items(rng.randint(0, 1))
-        templates.append({"kind": rng.choice(["fn", "method", "pure"]), "steps": [["with", ov(10 + i), body]]})
-    templates.append({"kind": "fn", "steps": [["with", ov(99), items(k + 1)]]})
+        # some consumers reach the shared task only after a request of their own, so that the
+        # shared task is started under one consumer and continued under another
+        pre = items(rng.randint(0, 1)) if rng.random() < 0.5 else []
+        templates.append({"kind": rng.choice(["fn", "method", "pure"]), "steps": pre + [["with", ov(10 + i), body]]})
+    shared_val = 99 if rng.random() < 0.5 else 10 + rng.randint(0, n - 1)
+    templates.append({"kind": "fn", "steps": [["with", ov(shared_val), items(k + 1)]]})
     templates.append({"kind": "fn", "steps": items(k + 1)})
+    return {"templates": templates, "root": {"tmpl": 0, "conv": rng.choice(["call", "value", "wrapped"])},
+            "kinds": kinds, "svs": 2, "yield_only": True, "reentry": False,
+            "faults": {"items": {}, "flushes": {}, "ctx": {}}, "prio": gen_prio(rng, kinds)}
+
+
+def motif_abandoned(rng):
+    """A task that holds overrides/contexts is left suspended for good: the task awaiting it fails
+    inside a NonAsyncContext (or the awaiting chain fails) while it is blocked on a request; the
+    computation goes on and ends, and the abandoned generator is finalised afterwards."""
+    kinds = rng.randint(1, 2)
+    sv = rng.randint(0, 1)
+
+    def ov(v):
+        r = rng.random()
+        return ["sv", sv, v] if r < 0.5 else ["attr", v] if r < 0.8 else ["ctx"]
+
+    def items(m):
+        return [["y", ["item", rng.randint(0, kinds - 1), rng.randint(0, 5)]] for _ in range(m)]
+    nchild = rng.randint(1, 3)
+    # templates: 0 root, 1 middle (NonAsync), 2.. children
+    children = []
+    for i in range(nchild):
+        body = items(rng.randint(1, 2))
+        for _ in range(rng.randint(1, 2)):
+            body = [["with", ov(20 + i), body]]
+        children.append({"kind": "fn", "steps": body})
+    kids = [["call", 2 + i, []] for i in range(nchild)]
+    mid_body = [["y", kids[0] if nchild == 1 and rng.random() < 0.5 else [rng.choice(["t", "l"]), kids]]]
+    mid = [["with", ["na"], mid_body]]
+    if rng.random() < 0.5:
+        mid = [["with", ov(10), mid]]
+    root = [["try", [["y", ["call", 1, []]]], "all", items(rng.randint(0, 1))]] + items(rng.randint(0, 2))
+    if rng.random() < 0.5:
+        root = [["with", ov(5), root]]
+    templates = [{"kind": "fn", "steps": root}, {"kind": "fn", "steps": mid}] + children
+    return {"templates": templates, "root": {"tmpl": 0, "conv": rng.choice(["call", "value", "wrapped"])},
+            "kinds": kinds, "svs": 2, "yield_only": True, "reentry": False,
+            "faults": {"items": {}, "flushes": {}, "ctx": {}}, "prio": gen_prio(rng, kinds)}
+
+
+def motif_dup_ref(rng):
+    """One yield that names the same not yet started task twice, with other fresh tasks around
+    and between the occurrences, in nested lists/tuples (start order, C03)."""
+    kinds = rng.randint(1, 2)
+    nleaf = rng.randint(2, 4)
+
+    def leafsteps():
+        return [["y", ["item", rng.randint(0, kinds - 1), rng.randint(0, 5)]] for _ in range(rng.randint(0, 2))]
+    templates = [None] + [{"kind": "fn", "steps": leafsteps()} for _ in range(nleaf)]
+    root = []
+    ncreate = rng.randint(1, 2)
+    for j in range(ncreate):
+        root.append(["c", ["call", rng.randint(1, nleaf), []]])
+    elems = []
+    for _ in range(rng.randint(2, 5)):
+        r = rng.random()
+        if r < 0.5:
+            elems.append(["ref", rng.randint(0, ncreate - 1)])
+        else:
+            elems.append(["call", rng.randint(1, nleaf), []])
+    # wrap some neighbours into nested containers
+    if len(elems) >= 3 and rng.random() < 0.6:
+        k = rng.randint(1, len(elems) - 1)
+        elems = [[rng.choice(["t", "l"]), elems[:k]], [rng.choice(["t", "l"]), elems[k:]]]
+    root.append(["y", [rng.choice(["t", "l"]), elems]])
+    templates[0] = {"kind": "fn", "steps": root}
     return {"templates": templates, "root": {"tmpl": 0, "conv": rng.choice(["call", "value", "wrapped"])},
             "kinds": kinds, "svs": 2, "yield_only": True, "reentry": False,
             "faults": {"items": {}, "flushes": {}, "ctx": {}}, "prio": gen_prio(rng, kinds)}
